@@ -2,13 +2,18 @@ package checks
 
 import (
 	"fmt"
+	"net/http/httptest"
 	"regexp"
 	"sort"
 	"strings"
 	"testing"
 
+	edsmetrics "github.com/DataDog/extendeddaemonset/pkg/controller/metrics"
+	"github.com/prometheus/common/expfmt"
+
 	corev1 "k8s.io/api/core/v1"
 	metav1 "k8s.io/apimachinery/pkg/apis/meta/v1"
+	"k8s.io/apimachinery/pkg/types"
 	ksmetric "k8s.io/kube-state-metrics/v2/pkg/metric"
 	generator "k8s.io/kube-state-metrics/v2/pkg/metric_generator"
 
@@ -56,6 +61,89 @@ func famByName(fams []generator.FamilyGenerator, obj interface{}) map[string]*ks
 
 // TestC20: every label map of the lattice x every status of the lattice through the real metric
 // family generators (shim) and BuildInfoLabels, compared with the reference pairing.
+// c20Endpoint: the series as a scraper gets them - the real /ksmetrics handler over one store per resource kind, fed with
+// every population of 0..2 ExtendedDaemonSets x 0..2 replica sets; the served text must parse, and every object's gauges
+// must be there with the numbers of its status.
+func c20Endpoint(run *h.Run) {
+	mkEDS := func(i int) *v1.ExtendedDaemonSet {
+		e := &v1.ExtendedDaemonSet{ObjectMeta: metav1.ObjectMeta{Namespace: "ns", Name: fmt.Sprintf("eds%d", i), UID: types.UID(fmt.Sprintf("uid-eds%d", i)), Labels: map[string]string{"app": "x"}}}
+		e.Status = v1.ExtendedDaemonSetStatus{Desired: int32(3 + i), Current: int32(2 + i), Ready: int32(1 + i), Available: int32(i), UpToDate: int32(i), State: v1.ExtendedDaemonSetStatusStateRunning}
+		return e
+	}
+	mkERS := func(i int) *v1.ExtendedDaemonSetReplicaSet {
+		r := &v1.ExtendedDaemonSetReplicaSet{ObjectMeta: metav1.ObjectMeta{Namespace: "ns", Name: fmt.Sprintf("ers%d", i), UID: types.UID(fmt.Sprintf("uid-ers%d", i)), Labels: map[string]string{"app": "x"}}}
+		r.Status = v1.ExtendedDaemonSetReplicaSetStatus{Desired: int32(5 + i), Current: int32(4 + i), Ready: int32(3 + i), Available: int32(2 + i)}
+		return r
+	}
+	for nE := 0; nE <= 2; nE++ {
+		for nR := 0; nR <= 2; nR++ {
+			func() {
+				rep := map[string]interface{}{"level": "/ksmetrics handler", "extendeddaemonsets": nE, "replicasets": nR}
+				defer func() {
+					if p := recover(); p != nil {
+						run.Violate(h.Violation{Signature: "C20/endpoint: serving /ksmetrics panics", Monitor: "C20/endpoint", Message: fmt.Sprint(p), Rank: int64(nE*3 + nR), Replay: rep})
+					}
+				}()
+				// two watched namespaces: two stores per kind would be registered; here two for the ExtendedDaemonSets
+				handler, stores := edsmetrics.VerifKsmHandler(edsctrl.VerifMetricFamilies(), edsctrl.VerifMetricFamilies(), ersctrl.VerifMetricFamilies())
+				for i := 0; i < nE; i++ {
+					if err := stores[i%2].Add(mkEDS(i)); err != nil {
+						panic(err)
+					}
+				}
+				for i := 0; i < nR; i++ {
+					if err := stores[2].Add(mkERS(i)); err != nil {
+						panic(err)
+					}
+				}
+				rec := httptest.NewRecorder()
+				handler.ServeHTTP(rec, httptest.NewRequest("GET", "/ksmetrics", nil))
+				run.Count("endpoint_scrapes", 1)
+				var parser expfmt.TextParser
+				fams, err := parser.TextToMetricFamilies(strings.NewReader(rec.Body.String()))
+				if err != nil {
+					run.Violate(h.Violation{Signature: "C20/endpoint: the text served by /ksmetrics is not a valid exposition", Monitor: "C20/endpoint", Message: err.Error(), Rank: int64(nE*3 + nR), Replay: rep})
+					return
+				}
+				want := map[string]float64{}
+				for i := 0; i < nE; i++ {
+					e := mkEDS(i)
+					want["eds_status_desired|"+e.Name], want["eds_status_current|"+e.Name], want["eds_status_ready|"+e.Name], want["eds_status_available|"+e.Name] = float64(e.Status.Desired), float64(e.Status.Current), float64(e.Status.Ready), float64(e.Status.Available)
+				}
+				for i := 0; i < nR; i++ {
+					r := mkERS(i)
+					want["ers_status_desired|"+r.Name], want["ers_status_current|"+r.Name], want["ers_status_ready|"+r.Name], want["ers_status_available|"+r.Name] = float64(r.Status.Desired), float64(r.Status.Current), float64(r.Status.Ready), float64(r.Status.Available)
+				}
+				got := map[string]float64{}
+				for name, mf := range fams {
+					for _, m := range mf.Metric {
+						obj := ""
+						for _, lp := range m.Label {
+							if lp.GetName() == "name" {
+								obj = lp.GetValue()
+							}
+						}
+						if m.Gauge != nil {
+							got[name+"|"+obj] = m.Gauge.GetValue()
+						} else if m.Untyped != nil {
+							got[name+"|"+obj] = m.Untyped.GetValue()
+						}
+					}
+				}
+				for k, v := range want {
+					g, ok := got[k]
+					if !ok || g != v {
+						run.Violate(h.Violation{Signature: "C20/endpoint: a series of an object is missing from /ksmetrics or does not carry its status field", Monitor: "C20/endpoint",
+							Message: fmt.Sprintf("%s: got %v (present=%v), want %v", k, g, ok, v), Rank: int64(nE*3 + nR), Replay: rep})
+						return
+					}
+				}
+				run.Nontrivial(fmt.Sprintf("endpoint:%d/%d", nE, nR))
+			}()
+		}
+	}
+}
+
 func TestC20(t *testing.T) {
 	run := h.NewRun("C20", "model_checking")
 	// keys changed by sanitising, keys colliding after sanitising, and keys whose relative ORDER changes under
@@ -257,5 +345,6 @@ func TestC20(t *testing.T) {
 	run.Cov["label_maps"] = len(labelMaps)
 	run.Assumptions = []string{"metric families are pure functions of one object (read from the generator code)",
 		"a key whose sanitised form would start with a digit is expected with a leading underscore"}
-	exit(run.Finish("lattice: every subset (<=4 quick / all thorough) of 7 label keys incl. keys changed by sanitising and colliding keys, x status counters {0,1,7}^5 x canary/condition/state variants, through the real generators; a case is distinct by (label-map shape | status tuple)"))
+	c20Endpoint(run)
+	exit(run.Finish("the real /ksmetrics handler over every population of 0..2 ExtendedDaemonSets x 0..2 replica sets (served text parsed back); lattice: every subset (<=4 quick / all thorough) of 7 label keys incl. keys changed by sanitising and colliding keys, x status counters {0,1,7}^5 x canary/condition/state variants, through the real generators; a case is distinct by (label-map shape | status tuple)"))
 }
